@@ -321,7 +321,7 @@ func first(a, _ []byte) []byte { return a }
 // class must have been zeroed and relinked before it is pooled (C12; the
 // obligations put_zero / put_unlinked are generated at every Put site).
 
-//@ spec refIs(ref, n, k) = (*ref).pointer == n && (*ref).tag == k && ref.obj != n && allocated(ref.obj) && ref.obj != nil && inT(n)
+//@ spec refIs(ref, n, k) = (*ref).pointer == n && (*ref).tag == k && ref.obj != n && allocated(ref.obj) && ref.obj != nil && inT(n) && !pooled(n)
 
 //@ func (*node256).addChild
 //@   requires n256 != nil && atype(n256) == typeid(node256) && Inv256(n256)
@@ -387,7 +387,7 @@ func first(a, _ []byte) []byte { return a }
 //@   ensures[replaced] (*ref).pointer == n4 || (fresh((*ref).pointer) && Zero4(n4))
 //@   ensures[frame] frame(n4, ref.obj, (*ref).pointer) && frameSlot(ref)
 
-//@ spec slotOK(ptr) = ptr.obj != (*ptr).pointer && allocated(ptr.obj) && ptr.obj != nil && inT((*ptr).pointer)
+//@ spec slotOK(ptr) = ptr.obj != (*ptr).pointer && allocated(ptr.obj) && ptr.obj != nil && inT((*ptr).pointer) && !pooled((*ptr).pointer)
 
 //@ func (*nodeRef).addChild
 //@   assigns SP ST B node.prefixLen node.childrenLen node4.keys pooled
